@@ -83,11 +83,15 @@ func VH_C16_select() {
 	m.Reset()
 	src, dst := m.Root("src"), m.Root("dst")
 	// tree X/{P, Q/{R}}, Y (+ an empty directory E) with names from {a, b, c}, siblings ascending
-	xi, yi := v.Choose("X", 2), 0
-	yi = xi + 1 + v.Choose("Y", 2-xi)
-	pi := v.Choose("P", 2)
-	qi := pi + 1 + v.Choose("Q", 2-pi)
-	x, y, p, q, r := letters[xi], letters[yi], letters[pi], letters[qi], letters[v.Choose("R", 3)]
+	// one concrete tree a/{a, b/{a}}, b (FIX=1): every template names something in it
+	x, y, p, q, r := "a", "b", "a", "b", "a"
+	if v.Param("FIX", 0) == 0 {
+		xi, yi := v.Choose("X", 2), 0
+		yi = xi + 1 + v.Choose("Y", 2-xi)
+		pi := v.Choose("P", 2)
+		qi := pi + 1 + v.Choose("Q", 2-pi)
+		x, y, p, q, r = letters[xi], letters[yi], letters[pi], letters[qi], letters[v.Choose("R", 3)]
+	}
 	m.MkDir(src+"/"+x, 0751, 3, 4, 5)
 	m.MkFile(src+"/"+x+"/"+p, []byte("p"), 0644, 1, 1, 9000000000)
 	m.MkDir(src+"/"+x+"/"+q, 0715, 5, 6, 5)
